@@ -10,7 +10,7 @@ rules.load_all()
 BASE = "cd /repo && /venv/bin/python -m pytest -ra -q -p no:cacheprovider --timeout=900 --continue-on-collection-errors"
 m = {
  "version": 1,
- "setup_cmd": "/venv/bin/python -m compileall -q /verif/sa >/dev/null && /venv/bin/python -c \"import sys; sys.path.insert(0,'/verif'); import sa.check\"",
+ "setup_cmd": "cd /verif && /venv/bin/python -m compileall -q sa >/dev/null && /venv/bin/python -m sa.selftest.engine",
  "hooks": {
   "guard": "FAST_TICC_VERIF",
   "enable": "no hook exists: the analyser only reads /repo's source files (stdlib ast), nothing in /repo is instrumented",
